@@ -99,7 +99,7 @@ def check(run, only=None):
         r = common.run_tlc("C20", "C20_thorough" if thorough else "C20", env={"VERIF_SEED": run.seed}, timeout=3000, heap="12g")
         vecs = r["lines"] + named_cases()
     send = [{k: x for k, x in v.items() if k != "exp"} for v in vecs]
-    obs, hooks = common.run_pool(send, deadline_ms=1000)
+    obs, hooks = common.run_pool(send, deadline_ms=4000)
     run.hooks = hooks
     for v in vecs:
         o = obs[v["id"]]
